@@ -208,7 +208,8 @@ func checkBackoffSnapshotFresh(c *RuleCtx, rule string, cs CallSite, lit *Func) 
 		if !ok {
 			return true
 		}
-		obj := lit.Info().Uses[id]
+		// through plain copies (a parameter binding of an inlined predicate) to the local that was loaded from gs.backoff
+		obj := p.R(lit).CopyRoot(lit.Info().Uses[id])
 		if d, ok := p.R(lit).SingleDef(obj); ok && d.kind == "assign" && d.rhs != nil {
 			if v := p.R(lit).Val(d.rhs); v.Kind == "index" && v.Args[0].IsField(gsField("backoff")) {
 				loadStmt = d.node
